@@ -1,5 +1,5 @@
-BOUNDS = 'every value of every channel model <= 16 bits and every packed width is one symbolic query; 32-bit integer channels: end points, range and identity over all 2^32 values, interior laws stratified (upper 16 bits concrete from a boundary + seeded set, lower 16 bits symbolic); float32 in [0,1]'
-OUTSIDE = 'interior laws for 32-bit channels over the full value space; NaN / out-of-range floats; user-defined channel models'
+BOUNDS = 'every value of every channel model <= 16 bits and every packed width is one symbolic query; 32-bit integer channels: end points, range and identity over all 2^32 values, monotonicity over all 2^32 values in successor form f(x) <= f(x+1) (equivalent by a chain argument), linearity and round trip stratified (upper 16 bits concrete from a boundary + seeded set, lower 16 bits symbolic; the unstratified query had no verdict in 900 s); float32 in [0,1]'
+OUTSIDE = 'linearity / round-trip laws for 32-bit channels over the full value space; NaN / out-of-range floats; user-defined channel models'
 ASSUMPTIONS = ['float channels are assumed to lie in [0,1]', 'packed channel values are assumed to be <= their maximum']
 INT = {'uint8_t': 8, 'int8_t': 8, 'uint16_t': 16, 'int16_t': 16, 'uint32_t': 32, 'int32_t': 32}
 def packed(n): return 'gil::packed_channel_value<%d>' % n
@@ -26,7 +26,7 @@ def queries(tier, seed):
             wide = (si and sb == 32)
             ents = ['h_ends', 'h_range', 'h_mono'] + (['h_lin'] if (si or di) else []) + (['h_round'] if rt and (si) else []) + (['h_ident'] if same else [])
             for e in ents:
-                if wide and e in ('h_mono', 'h_lin', 'h_round'):
+                if wide and e in ('h_lin', 'h_round'):
                     for st in (strata_t if tier == 'thorough' else strata_q):
                         tt = t if st in strata_q else 'thorough'
                         qs.append(Q('%s/%s/hi%04x' % (name, e[2:], st), 'C06/conv.cpp', e, defs=defs, params=[1, st], unwind=4, tier=tt, timeout=180,
